@@ -164,6 +164,32 @@ def registry_digest(schema):
     }
 
 
+def registry_case(source, funcs, rng, deep):
+    """`c = source.clone()` + a few registrations on `c`: the request for the model (registries of the source before, the
+    operations) and what the real code shows afterwards (registries of the source and of the clone)."""
+    from py_gql.schema import ObjectType
+    before = registry_digest(source)
+    c = source.clone()
+    objs = [t for n, t in c.types.items() if isinstance(t, ObjectType) and not n.startswith("__") and t.fields]
+    ops = []
+    for _ in range(rng.randint(1, 4)):
+        if not objs:
+            break
+        t = rng.choice(objs)
+        f = rng.choice(list(t.fields))
+        fn = funcs.make(universal_resolver)
+        k = rng.choice(["resolver", "resolver", "subscription", "default"])
+        if k == "resolver":
+            c.register_resolver(t.name, f.name, fn, allow_override=True)
+        elif k == "subscription":
+            c.register_subscription(t.name, f.name, fn, allow_override=True)
+        else:
+            c.register_default_resolver(t.name, fn, allow_override=True)
+        ops.append({"k": k, "t": t.name, "f": f.name, "fn": fn._vid})
+    return ({"op": "regs", "deep": deep, "source": before, "ops": ops},
+            {"source": registry_digest(source), "clone": registry_digest(c)})
+
+
 def post_derivation_registrations(derived, source, funcs, rng):
     """Use the DERIVED schema the way an application does after deriving it: register resolvers, subscriptions and default
     resolvers (method and decorator forms) on object types that already had registry entries in the source at derivation
